@@ -1,4 +1,6 @@
 import TorrentVerif.Proofs.Recheck
+import TorrentVerif.Proofs.RecheckFull
+import TorrentVerif.Model.ExceptEq
 /-
   C05 — recheck reports exactly 100 % for intact content of any well-formed metafile.
   Property theorems only; helper lemmas live in `Proofs/Recheck.lean`.
@@ -89,6 +91,191 @@ example :
     Impl.iterHashes (Impl.hashCheck toyH 2 2 2 ([[1,2,3,4,5,6,7], [], [8,9,10]].map (fun d =>
         (d.length, (Impl.fileHasher toyH toyH 2 2 2 false d).1,
           (Impl.fileHasher toyH toyH 2 2 2 false d).2.1, some d)))) = (10, 10) := by
+  decide +kernel
+
+/-! ### the whole `Checker` (`Model/RecheckFull`): metafile → file map → verdicts → result -/
+
+open RF in
+/-- The file map.  For every well-formed v1, v2 or hybrid metafile — `Spec.describedFiles` is
+    defined: its dictionaries may list their keys in any order, own or foreign encoder — the
+    `paths` / `fileinfo` that `Checker.check_paths` / `walk_file_tree` build (path below the
+    payload root, recorded length, pieces root; and `total`) are exactly the files the
+    metafile describes per BEP 3 / BEP 52: v1 the `files` list in order, padding entries
+    included, or the single file; v2 / hybrid the leaves of the file tree, or the single file
+    (`length` present, or tree `{name: file}` on a regular-file payload — the repaired D11
+    rule).  The one exception is excluded by `hne` and exhibited in
+    `emptySingleV2_keyError`. -/
+theorem checkPaths_eq_described (mf : BVal) (info : Dict) (name : Bytes) (rootIsFile : Bool)
+    (recs : List FileRec) (hinfo : mf.get? K.info = some (.dict info))
+    (hname : dictGet info K.name = some (.str name))
+    (hd : Spec.describedFiles mf rootIsFile = some recs)
+    (hne : ¬ Spec.EmptySingleV2 mf rootIsFile) :
+    Impl.checkPaths info name (Impl.metaVersion info) rootIsFile = .ok (recs, totalOf recs) :=
+  Spec.checkPaths_of_described mf info name rootIsFile recs hinfo hname hd
+    (fun hv he => hne ⟨by rw [hd, he], info, hinfo, hv⟩)
+
+/-- a v1 directory (keys unsorted, an empty file, a nested file); a hybrid tree; a v2 single
+    file without `info.length` on a regular-file payload -/
+example :
+    Spec.describedFiles RF.Ex.v1Meta false
+      = some [([[97]], 3, none), ([[98]], 0, none), ([[100], [99]], 4, none)] ∧
+    Spec.describedFiles RF.Ex.hybridMeta false
+      = some [([[97]], 7, some [1, 2]), ([[98]], 0, none), ([[100], [99]], 3, some [8, 9])] ∧
+    Spec.describedFiles RF.Ex.singleMeta true = some [([], 7, some [1, 2])] ∧
+    Impl.checkPaths [(K.fileTree, .dict [([110], RF.Ex.leaf 7 (some [1, 2]))]),
+        (K.metaVersion, .int 2), (K.name, .str [110]), (K.pieceLength, .int 4)] [110] 2 true
+      = .ok ([([], 7, some [1, 2])], 7) := by
+  decide
+
+/-- COUNTEREXAMPLE to the file-map statement without `hne` (the real `Checker` agrees with
+    the model: `KeyError: 'pieces root'`).  A v2 (or hybrid) metafile that describes one
+    single empty file — well-formed per BEP 52, which gives an empty file no `pieces root` —
+    makes `check_paths` fail: the single-file branch reads `["pieces root"]` unconditionally
+    (the multi-file branch does not, for empty files).  The total payload of such a torrent
+    is 0 bytes, which property C05 excludes. -/
+theorem emptySingleV2_keyError :
+    ∃ mf info name, mf.get? K.info = some (.dict info) ∧ dictGet info K.name = some (.str name) ∧
+      Spec.describedFiles mf true = some [([], 0, none)] ∧ Spec.EmptySingleV2 mf true ∧
+      Impl.checkPaths info name (Impl.metaVersion info) true = .error .keyError := by
+  refine ⟨RF.Ex.emptySingleMeta, _, [110], rfl, rfl, by decide, ⟨by decide, _, rfl, by decide⟩,
+    by decide⟩
+
+example : Impl.recheckMeta RF.Ex.h1 toyH 2 2 RF.Ex.emptySingleMeta [110] (some (.file []))
+    = .error .keyError := by decide
+
+open RF in
+/-- Root or parent.  Let the payload be stored under the torrent's name in a directory
+    (`child (.dir parent) name = some payload`; other entries may be there too).  If that
+    directory is NOT itself named like the torrent (`pname ≠ name` — the precise side
+    condition), `find_root` resolves "the parent directory" and "the payload root" (passed
+    under its own name) to the same node, so the file map and the whole result — verdict
+    stream, matched, consumed, or the error — are the same for both content arguments. -/
+theorem root_or_parent (H1 H : Bytes → Bytes) (B hs : Nat) (mf : BVal) (payload : Disk)
+    (parent : List (Bytes × Node)) (pname : Bytes)
+    (hstored : child (.dir parent) (Impl.nameOf mf) = some payload)
+    (hside : pname ≠ Impl.nameOf mf) :
+    Impl.findRoot (Impl.nameOf mf) pname (some (.dir parent))
+      = Impl.findRoot (Impl.nameOf mf) (Impl.nameOf mf) (some payload) ∧
+    Impl.recheckMeta H1 H B hs mf pname (some (.dir parent))
+      = Impl.recheckMeta H1 H B hs mf (Impl.nameOf mf) (some payload) := by
+  have h : Impl.findRoot (Impl.nameOf mf) pname (some (.dir parent))
+      = Impl.findRoot (Impl.nameOf mf) (Impl.nameOf mf) (some payload) := by
+    rw [Spec.findRoot_parent _ pname parent payload hside hstored, Spec.findRoot_root]
+  exact ⟨h, Spec.recheckMeta_congr H1 H B hs mf _ _ _ _ h⟩
+
+/-- the hybrid payload `n` next to another entry inside a directory `h` -/
+example :
+    Impl.recheckMeta RF.Ex.h1 toyH 2 2 RF.Ex.hybridMeta [104]
+        (some (.dir [([120], .file [9]), ([110], RF.Ex.v2Disk)]))
+      = Impl.recheckMeta RF.Ex.h1 toyH 2 2 RF.Ex.hybridMeta [110] (some RF.Ex.v2Disk) :=
+  (root_or_parent RF.Ex.h1 toyH 2 2 RF.Ex.hybridMeta RF.Ex.v2Disk
+    [([120], .file [9]), ([110], RF.Ex.v2Disk)] [104] rfl (by decide)).2
+
+open RF in
+/-- The same at the level of the whole `Checker` on the metafile bytes: content argument =
+    payload root (named like the torrent) and content argument = parent directory (any other
+    name) give the same result. -/
+theorem root_or_parent_arg (H1 H : Bytes → Bytes) (B hs : Nat) (metafile : Bytes) (mf : BVal)
+    (disk : Disk) (pname : Bytes) (hmf : Impl.loads metafile = some mf)
+    (hside : pname ≠ Impl.nameOf mf) :
+    Impl.recheck H1 H B hs metafile ⟨.parent, pname⟩ disk
+      = Impl.recheck H1 H B hs metafile ⟨.root, Impl.nameOf mf⟩ disk := by
+  simp only [Impl.recheck, hmf, ContentArg.place]
+  exact (root_or_parent H1 H B hs mf disk [(Impl.nameOf mf, disk)] pname
+    (by simp [child]) hside).2
+
+example : Impl.recheck RF.Ex.h1 toyH 2 2 (Impl.encode RF.Ex.v1Meta) ⟨.parent, [104]⟩ RF.Ex.v1Disk
+    = .ok ([(true, 4), (true, 3)], 7, 7) := by decide +kernel
+
+/-- WITNESS that the side condition is needed (the real `Checker` agrees): the v2 torrent `n`
+    (a directory), intact, stored as `n/n`.  The parent directory is named like the torrent,
+    so `find_root` takes the parent itself for the payload; every file is looked up one level
+    too high, is absent, and is read as zeros: nothing verifies (0 of 10 bytes), whereas the
+    payload root gives 10 of 10. -/
+theorem root_or_parent_needs_side_condition :
+    ∃ (mf : BVal) (payload : RF.Disk) (parent : List (Bytes × Node)),
+      RF.child (.dir parent) (Impl.nameOf mf) = some payload ∧
+      Impl.recheckMeta RF.Ex.h1 toyH 2 2 mf (Impl.nameOf mf) (some (.dir parent))
+        = .ok ([(false, 4), (false, 3), (false, 3)], 0, 10) ∧
+      Impl.recheckMeta RF.Ex.h1 toyH 2 2 mf (Impl.nameOf mf) (some payload)
+        = .ok ([(true, 4), (true, 3), (true, 3)], 10, 10) :=
+  ⟨RF.Ex.v2Meta, RF.Ex.v2Disk, [([110], RF.Ex.v2Disk)], rfl, by decide +kernel,
+    by decide +kernel⟩
+
+/-- the same witness for the hybrid metafile -/
+example :
+    Impl.recheckMeta RF.Ex.h1 toyH 2 2 RF.Ex.hybridMeta [110] (some (.dir [([110], RF.Ex.v2Disk)]))
+      = .ok ([(false, 4), (false, 3), (false, 3)], 0, 10) := by decide +kernel
+
+open RF in
+/-- Intact content, whole `Checker`, all three versions.  Let the metafile be well-formed
+    (`Spec.plan` defined: v1 → `Plan.v1`, v2 and hybrid → `Plan.v2`) for the payload on disk,
+    let its recorded hashes be the hashes of the disk contents (`Plan.Intact`: every
+    described file present with its recorded length; v1 `pieces` = BEP 3 digests of the
+    concatenated files; v2 / hybrid `pieces root` and piece layers = what `FileHasher`
+    computes, i.e. BEP 52), the payload not empty, and let `find_root` resolve the content
+    argument to the payload (root or parent, see `root_or_parent`).  Then the run succeeds,
+    every piece verifies, and `(matched, consumed) = (total, total)` with `total > 0`:
+    exactly 100 %.  `H1`, `H` are arbitrary functions with 20- and `hs`-byte digests. -/
+theorem intact_full (H1 H : Bytes → Bytes) (B hs : Nat) (hhs : 0 < hs)
+    (hH1 : ∀ b, (H1 b).length = 20) (hH : ∀ b, (H b).length = hs) (mf : BVal) (disk : Disk)
+    (p : Spec.Plan) (argName : Bytes) (here : Option Node)
+    (hplan : Spec.plan B mf disk = some p) (hintact : p.Intact H1 H B hs)
+    (htotal : 0 < p.total)
+    (hroot : Impl.findRoot (Impl.nameOf mf) argName here = .ok disk) :
+    Impl.recheckMeta H1 H B hs mf argName here
+      = .ok (p.verdicts H1 H B hs, p.total, p.total) ∧
+    (∀ v ∈ p.verdicts H1 H B hs, v.1 = true) ∧ 0 < p.total :=
+  ⟨Spec.recheckMeta_intact H1 H B hs hhs hH1 hH mf disk p argName here hplan hintact htotal hroot,
+    Spec.intact_all_true H1 H B hs hH1 hH mf disk p hplan hintact, htotal⟩
+
+/-- v1 (via the parent directory `h`), v2 and hybrid (via the root), v2 single file without
+    `info.length`: all pieces verify -/
+example :
+    Impl.recheckMeta RF.Ex.h1 toyH 2 2 RF.Ex.v1Meta [104] (some (.dir [([110], RF.Ex.v1Disk)]))
+      = .ok ([(true, 4), (true, 3)], 7, 7) ∧
+    Impl.recheckMeta RF.Ex.h1 toyH 2 2 RF.Ex.v2Meta [110] (some RF.Ex.v2Disk)
+      = .ok ([(true, 4), (true, 3), (true, 3)], 10, 10) ∧
+    Impl.recheckMeta RF.Ex.h1 toyH 2 2 RF.Ex.hybridMeta [110] (some RF.Ex.v2Disk)
+      = .ok ([(true, 4), (true, 3), (true, 3)], 10, 10) ∧
+    Impl.recheckMeta RF.Ex.h1 toyH 2 2 RF.Ex.singleMeta [110] (some RF.Ex.singleDisk)
+      = .ok ([(true, 4), (true, 3)], 7, 7) := by
+  decide +kernel
+
+/-- the hypotheses of `intact_full` hold for the v2 example (plan, intact, total) -/
+example : ∃ p, Spec.plan 2 RF.Ex.v2Meta RF.Ex.v2Disk = some p ∧ p.Intact RF.Ex.h1 toyH 2 2 ∧
+    0 < p.total := by
+  refine ⟨.v2 2 [(7, [1, 2], [1, 2, 5, 6], some [1, 2, 3, 4, 5, 6, 7]), (0, [], [], some []),
+    (3, [8, 9], [], some [8, 9, 10])], rfl, ?_, by decide⟩
+  intro f hf
+  simp only [List.mem_cons, List.not_mem_nil, or_false] at hf
+  rcases hf with rfl | rfl | rfl
+  · exact ⟨_, rfl, rfl, fun _ => by decide +kernel, fun _ => by decide +kernel⟩
+  · exact ⟨_, rfl, rfl, fun h => absurd rfl h, fun h => by simp at h⟩
+  · exact ⟨_, rfl, rfl, fun _ => by decide +kernel, fun h => by simp at h⟩
+
+open RF in
+/-- The same for the whole `Impl.recheck` on the metafile BYTES: the bytes decode
+    (`pyben.load`) to `mf`, and the content argument is the payload root (named like the
+    torrent) or its parent directory (not named like the torrent) — `ContentArg.Resolves`.
+    Intact, non-empty content gives `(total, total)` either way. -/
+theorem intact_full_arg (H1 H : Bytes → Bytes) (B hs : Nat) (hhs : 0 < hs)
+    (hH1 : ∀ b, (H1 b).length = 20) (hH : ∀ b, (H b).length = hs) (metafile : Bytes) (mf : BVal)
+    (arg : ContentArg) (disk : Disk) (p : Spec.Plan) (hmf : Impl.loads metafile = some mf)
+    (harg : arg.Resolves (Impl.nameOf mf)) (hplan : Spec.plan B mf disk = some p)
+    (hintact : p.Intact H1 H B hs) (htotal : 0 < p.total) :
+    Impl.recheck H1 H B hs metafile arg disk = .ok (p.verdicts H1 H B hs, p.total, p.total) ∧
+    0 < p.total := by
+  simp only [Impl.recheck, hmf]
+  exact ⟨(intact_full H1 H B hs hhs hH1 hH mf disk p arg.argName _ hplan hintact htotal
+    (Spec.findRoot_place arg _ disk harg)).1, htotal⟩
+
+/-- the bytes of the hybrid example metafile, root (named `n`) and parent (named `h`) -/
+example :
+    Impl.recheck RF.Ex.h1 toyH 2 2 (Impl.encode RF.Ex.hybridMeta) ⟨.root, [110]⟩ RF.Ex.v2Disk
+      = .ok ([(true, 4), (true, 3), (true, 3)], 10, 10) ∧
+    Impl.recheck RF.Ex.h1 toyH 2 2 (Impl.encode RF.Ex.hybridMeta) ⟨.parent, [104]⟩ RF.Ex.v2Disk
+      = .ok ([(true, 4), (true, 3), (true, 3)], 10, 10) := by
   decide +kernel
 
 end TorrentVerif.Props.C05
